@@ -15,7 +15,8 @@ type triIn struct {
 	Qs      []eQuery `json:"qs"`
 	Batch   int      `json:"batch,omitempty"`
 	Rebuild int      `json:"rebuild,omitempty"`
-	Ac      bool     `json:"ac,omitempty"` // field 1 is a pattern field in all three indexes (documents from acDocsQueries)
+	Pre     bool     `json:"pre,omitempty"` // the posting-list builders have produced an earlier generation (the same documents under other ids) and were Reset
+	Ac      bool     `json:"ac,omitempty"`  // field 1 is a pattern field in all three indexes (documents from acDocsQueries)
 }
 
 func zooValue(r *Rand, parser string) TV {
@@ -73,7 +74,7 @@ func init() {
 			// pattern fields: the three implementations must join lists, match keywords and combine with ordinary fields alike
 			for i := 0; i < n/5; i++ {
 				docs, qs := acDocsQueries(r, i%3 == 0)
-				add(triIn{Tri: true, NF: 2, Ac: true, Docs: docs, Qs: qs})
+				add(triIn{Tri: true, NF: 2, Ac: true, Docs: docs, Qs: qs, Pre: r.Bool()})
 			}
 			{ // keywords that span, contain or border the join of a list assignment
 				kw := func(inc bool, ss ...string) eExpr {
@@ -93,7 +94,7 @@ func init() {
 					}
 					qs = append(qs, eQuery{A: []eAssign{{F: 1, V: tvSlice("[]string", l...)}}}, eQuery{A: []eAssign{{F: 1, V: tvList(l...)}, {F: 0, V: tvInt("int", 1)}}})
 				}
-				add(triIn{Tri: true, NF: 2, Ac: true, Docs: docs, Qs: qs})
+				add(triIn{Tri: true, NF: 2, Ac: true, Docs: docs, Qs: qs, Pre: r.Bool()})
 			}
 			for i := 0; i < n; i++ {
 				p := []string{"", "number", "strhash"}[i%3]
@@ -160,6 +161,11 @@ func init() {
 			// to be created by a document: it never is (documents use fields < NF)
 			mk := func(kind string) (execResult, error) {
 				c := eCase{Kind: kind, Policy: "error", Parsers: parsers, Configs: configs, Docs: t.Docs, Queries: t.Qs, Batch: t.Batch, Rebuild: t.Rebuild}
+				if t.Pre { // a reused builder: BuildIndex, Reset, AddDocument, BuildIndex (field configuration must survive Reset)
+					for _, d := range t.Docs {
+						c.Pre = append(c.Pre, eDoc{ID: d.ID + 100000, Cons: d.Cons})
+					}
+				}
 				b, _ := json.Marshal(c)
 				return execE2E(b)
 			}
